@@ -288,6 +288,10 @@ def foreign_variants(spec: dict) -> list[tuple[str, dict]]:
     v("seq_len_max", seq_len_max=256)
     v("seq_len_min", seq_len_min=0)
     v("filters+", applied_filters=list(spec.get("applied_filters", [])) + [dict(name="path_length", kwargs=dict(min_length=1))])
+    if spec.get("applied_filters") and spec["applied_filters"][0].get("kwargs"):
+        for lab, dx in (("filter_kwargs", 2), ("filter_kwargs-", -1)):     # same filter NAMES, other arguments (stricter / laxer)
+            f0 = dict(spec["applied_filters"][0]); f0["kwargs"] = {k: (max(0, x + dx) if isinstance(x, int) else x) for k, x in f0["kwargs"].items()}
+            v(lab, applied_filters=[f0] + list(spec["applied_filters"][1:]))
     v("n_mazes_only", n_mazes=spec["n_mazes"] + 2)
     out.append(("same", dict(type="foreign", spec=dict(spec))))
     out.append(("trailing_cgm", dict(type="foreign", spec=dict(spec), collect=True)))
@@ -325,6 +329,17 @@ def build_tasks(ctx, pristine: dict[str, bytes], deep: bool) -> list[dict]:
             xs = [(rng.randrange(n), rng.choice([1, 2, 4, 8, 16, 32, 64, 128, 255, rng.randrange(1, 256)])) for _ in range(k)]
         for off, mask in xs:
             add(name, [dict(fault=dict(type="xor", off=off, mask=mask)), call], "xor")
+        # --- every byte of the zip container's own records (local headers, central directory, end record): version/flag/method/size
+        #     fields make zipfile fail in its own ways (NotImplementedError, RuntimeError, BadZipFile), not only with OSError/ValueError
+        if name in ("dfs3", "big2") or deep:
+            zoffs = set()
+            for sig_, ln in ((b"PK\x03\x04", 30), (b"PK\x01\x02", 46), (b"PK\x05\x06", 22)):
+                i = data.find(sig_)
+                while i != -1:
+                    zoffs.update(range(i, min(n, i + ln))); i = data.find(sig_, i + 1)
+            for off in sorted(zoffs):
+                for mask in ((255, 1) if (primary or deep) else (255,)):
+                    add(name, [dict(fault=dict(type="xor", off=off, mask=mask)), call], "xor-zip-record")
         # --- save interrupted at each low-level write, then a second request must heal
         for k in range(0, 60 if name != "bigf3" or deep else 0):
             for half in ((False, True) if (primary or deep) else (k % 2 == 1,)):
@@ -333,6 +348,10 @@ def build_tasks(ctx, pristine: dict[str, bytes], deep: bool) -> list[dict]:
         if name in ("dfs3", "wil4f", "big2") or deep:
             for label, f in foreign_variants(SPECS[name]):
                 add(name, [dict(fault=f), call], "foreign:" + label)
+        elif name == "bigf3":    # a minimal-format file (>= 100 mazes after filtering) of a config that differs only in a filter argument / the seed
+            for label, f in foreign_variants(SPECS[name]):
+                if label in ("filter_kwargs", "filter_kwargs-", "seed", "trailing_cgm"):
+                    add(name, [dict(fault=f), call], "foreign:" + label)
             for what in ("dict", "cfg", "collection"):
                 add(name, [dict(fault=dict(type="other", what=what)), call], "other:" + what)
     # --- every flag combination on four file states (correspondence of the decision logic)
